@@ -33,6 +33,8 @@ mod probe;
 mod rng;
 mod sexp;
 mod util;
+mod unify;
+mod solve;
 
 fn main() {
     let argv: Vec<String> = std::env::args().collect();
@@ -66,6 +68,8 @@ fn main() {
         "dce" => dce::main(&args),
         "gocomp" => gocomp::main(&args),
         "c02names" => namecat::main(&args),
+        "unify" => unify::main(&args),
+        "solve" => solve::main(&args),
         "probe" => probe::main(&args),
         "stages" => probe::stages(&args),
         "golden" => probe::golden(&args),
